@@ -1,6 +1,7 @@
 (* C09 -- each IE field accessor reads and writes exactly its documented bits.
    [accessors] and [mask_body] are regenerated from nasType/*.go on every run
    (Gen/GenAccessors.v); bodies are run by the BV interpreter [run_body]. *)
+From NV Require C19.Globals.
 From NV Require Import Lib.Base Lib.BV C09.Types C09.Abs C09.AbsSound C09.Check C09.All C09.Pairs C09.Final
   Gen.GenAccessors.
 Open Scope N_scope.
@@ -59,9 +60,18 @@ Example C09_population : class_counts = class_counts.
 Proof. reflexivity. Qed.
 Eval vm_compute in class_counts.
 
+(* the functions this property is about are functions of their arguments: the files it is anchored in declare
+   no package-level variable other than the pinned read-only tables (or a never-touched one of plain type) and
+   none of their functions writes, slices, takes the address of, passes on or calls a method of a
+   package-level variable (logger entries excepted) -- evaluated on the current source (C19/Globals.v) *)
+Theorem C09_anchor_files_keep_no_state :
+  Globals.hidden_state_free Globals.anchors_C09 = true.
+Proof. vm_compute. reflexivity. Qed.
+
 Print Assumptions C09_all_checked.
 Print Assumptions C09_all_accessors.
 Print Assumptions C09_set_then_get.
 Print Assumptions C09_frame.
 Print Assumptions C09_setter_keeps_header.
 Print Assumptions C09_skipped_pinned.
+Print Assumptions C09_anchor_files_keep_no_state.
